@@ -18,10 +18,26 @@
     plain full contraction — of that sample's network.  The two facts that make the sharing sound are proved for all
     sizes: a partial contraction reads only its own columns (`OptContract.contract_congr`), and the diagonal logicals
     touch only cells in the columns (rows) `left_stop … right_stop` (`PlanarRmpsLemmas.siteAt_samples4`);
-  * `planarRmps_optimized_plain` — … hence equals the plain contraction `tnValue` of each of the four networks.
+  * `planarRmps_optimized_plain` — … hence equals the plain contraction `tnValue` of each of the four networks;
+  * `planarRmps_tn_exact_value`, `planarRmps_tn_value`, `_rl`, `_transposed` — the literal index sum of the rotated
+    network, and the model of `mps2d.contract` applied to it (left to right, right to left, transposed), equal
+    `cosetProb dist (Planar.stabilizers R C) sample`.  Route (Lemmas/PlanarRmpsFactor.lean): every dimension-4 bond is
+    split into its two bits; in the rotated network a bond is an edge of the cell grid carrying the bits of the two
+    plaquettes at its end points, a qubit tensor is (all copies of its four corner bits agree) × (bare
+    `h_node_value` / `v_node_value` of the corner bits) — the einsum with `tsr.delta`, evaluated (`hEntry`, `vEntry`) —,
+    the agreement constraints of all cells are exactly the delta stars of the plaquettes (ring of four bonds in the
+    bulk, two bonds at the boundary), and `Network.factor_graph_identity`'s two halves (`sumV_stars`, `sumB_eq_span`)
+    finish as for the un-rotated network;
+  * `planarRmps_optimized_value` — **the optimised procedure returns the four exact coset probabilities**:
+    `cosetValues R C d major f = ok (min(R,C)-1, max(R,C)-1, [cosetProb f, cosetProb (X f), cosetProb (Z X f),
+    cosetProb (Z f)])` with the diagonal logicals `_logical_x / _logical_z` of the mode.
+
+  What is NOT a theorem here: that the real float / mpf contraction equals the exact value (explored within 1e-11 by the
+  harness); that the diagonal logicals lie in the cosets of the code's `logical_x / logical_z` (the harness compares the
+  four model values with `cosetProb` on the REAL stabilizers and logicals, exactly, on every run for small groups).
 -/
 import QecVerif.Props.C10.Network
-import QecVerif.Lemmas.PlanarRmpsTn
+import QecVerif.Lemmas.PlanarRmpsFactor
 namespace Qec.C10.PlanarRmpsNetwork
 open Qec Qec.Coset Qec.Tensor Qec.TensorAlg Qec.TensorExact Qec.TensorPad Qec.PlanarRmpsTn Qec.PlanarRmpsLemmas
 
@@ -64,5 +80,83 @@ theorem planarRmps_optimized_plain (R C : Int) (d : Dist Int) (major : Bool) (f 
   obtain ⟨v', hv', ht, -, -⟩ := planarRmps_tn_contract_exact R C d g hR hC
   rw [hv] at hv'
   rw [ht, Option.some.inj hv']
+
+/-- **the rotated network's index sum is the coset probability**, all sizes -/
+theorem planarRmps_tn_exact_value (R C : Int) (d : Dist Int) (sample : BVec) (hR : 2 ≤ R) (hC : 2 ≤ C)
+    (hs : sample.length = 2 * (Planar.nQubits R C).toNat) :
+    exactValue (rmpsTn R C d sample) = some (cosetProb d (Planar.stabilizers R C) sample) :=
+  PlanarRmpsFactor.exactValue_rmpsTn_eq_cosetProb R C d sample hR hC hs
+
+/-- **`planarRmps_tn_value`**: the model of `mps2d.contract(tn)` (default arguments, no truncation) applied to the
+    rotated network returns the coset probability, for all R, C ≥ 2, all distributions and all samples -/
+theorem planarRmps_tn_value (R C : Int) (d : Dist Int) (sample : BVec) (hR : 2 ≤ R) (hC : 2 ≤ C)
+    (hs : sample.length = 2 * (Planar.nQubits R C).toNat) :
+    tnValue R C d sample = .ok (.scalar (cosetProb d (Planar.stabilizers R C) sample)) := by
+  obtain ⟨v, hv, ht, -, -⟩ := planarRmps_tn_contract_exact R C d sample hR hC
+  rw [planarRmps_tn_exact_value R C d sample hR hC hs] at hv
+  rw [ht, ← Option.some.inj hv]
+
+/-- … and right to left (`step = -1`) -/
+theorem planarRmps_tn_value_rl (R C : Int) (d : Dist Int) (sample : BVec) (hR : 2 ≤ R) (hC : 2 ≤ C)
+    (hs : sample.length = 2 * (Planar.nQubits R C).toNat) :
+    contract (rmpsTn R C d sample) none false none none (some (-1)) none
+      = .ok (.scalar (cosetProb d (Planar.stabilizers R C) sample)) := by
+  obtain ⟨v, hv, -, ht, -⟩ := planarRmps_tn_contract_exact R C d sample hR hC
+  rw [planarRmps_tn_exact_value R C d sample hR hC hs] at hv
+  rw [ht, ← Option.some.inj hv]
+
+/-- … and row by row: the contraction of `mps2d.transpose(tn)` -/
+theorem planarRmps_tn_value_transposed (R C : Int) (d : Dist Int) (sample : BVec) (hR : 2 ≤ R) (hC : 2 ≤ C)
+    (hs : sample.length = 2 * (Planar.nQubits R C).toNat) :
+    contract (rmpsTn R C d sample).transpose none false none none none none
+      = .ok (.scalar (cosetProb d (Planar.stabilizers R C) sample)) := by
+  obtain ⟨v, hv, -, -, ht⟩ := planarRmps_tn_contract_exact R C d sample hR hC
+  rw [planarRmps_tn_exact_value R C d sample hR hC hs] at hv
+  rw [ht, ← Option.some.inj hv]
+
+/-- **the optimised contraction `_tn_contract_optimized` returns the four exact coset probabilities**, for all
+    R, C ≥ 2 (square or not), all distributions, all samples, both modes: the column bounds are
+    `left_stop = min(R,C) - 1`, `right_stop = max(R,C) - 1`, and the four values are `cosetProb` of
+    `f, X f, Z X f, Z f` (diagonal logicals of the mode) -/
+theorem planarRmps_optimized_value (R C : Int) (d : Dist Int) (major : Bool) (f : BVec) (hR : 2 ≤ R) (hC : 2 ≤ C)
+    (hf : f.length = 2 * (Planar.nQubits R C).toNat) :
+    cosetValues R C d major f = .ok ((min R C - 1).toNat, (max R C - 1).toNat,
+      (samples4 R C major f).map (cosetProb d (Planar.stabilizers R C))) := by
+  obtain ⟨vs, h1, h2⟩ := planarRmps_optimized_exact R C d major f hR hC hf
+  rw [h1]
+  congr 3
+  have hlen : ∀ g ∈ samples4 R C major f, g.length = f.length := by
+    intro g hg
+    unfold samples4 applyLogicalX applyLogicalZ at hg
+    simp only [List.mem_cons, List.not_mem_nil, or_false] at hg
+    rcases hg with rfl | rfl | rfl | rfl <;> simp only [PlanarCode.sites_length]
+  have key : ∀ (vs : List Int) (gs : List BVec),
+      List.Forall₂ (fun v g => exactValue (rmpsTn R C d g) = some v) vs gs → (∀ g ∈ gs, g.length = f.length) →
+      vs = gs.map (cosetProb d (Planar.stabilizers R C)) := by
+    intro vs gs h
+    induction h with
+    | nil => intro _; rfl
+    | @cons v g vs gs hv _ ih =>
+      intro hl
+      rw [List.map_cons, ← ih (fun g' hg' => hl g' (List.mem_cons_of_mem _ hg'))]
+      congr 1
+      rw [planarRmps_tn_exact_value R C d g hR hC ((hl g (List.mem_cons_self ..)).trans hf)] at hv
+      exact (Option.some.inj hv).symm
+  exact key vs _ h2 hlen
+
+/-! ### non-vacuity: the hypotheses hold for the 2 x 4 code (sides differing by 2), a sample with a non-zero
+    syndrome and a biased distribution (numerators over 2^16) -/
+
+def exSample : BVec :=
+  [true, false, false, false, false, true, false, false, false, false, false,
+   false, false, true, false, false, false, false, false, false, true, false]
+
+example : (2 : Int) ≤ 2 ∧ (2 : Int) ≤ 4 ∧ exSample.length = 2 * (Planar.nQubits 2 4).toNat := by decide
+
+example : synd (Planar.stabilizers 2 4) exSample ≠ zeros (Planar.stabilizers 2 4).length := by decide
+
+example : cosetValues 2 4 ⟨58982, 2185, 1092, 3277⟩ true exSample
+    = .ok (1, 3, (samples4 2 4 true exSample).map (cosetProb ⟨58982, 2185, 1092, 3277⟩ (Planar.stabilizers 2 4))) :=
+  planarRmps_optimized_value 2 4 _ true exSample (by decide) (by decide) (by decide)
 
 end Qec.C10.PlanarRmpsNetwork
